@@ -266,7 +266,10 @@ func (bi *BasmInstance) assembler2NewBondMachine() error {
 				for _, arg := range line.Elements {
 					hexVal := arg.GetValue()
 					if n, err := bmnumbers.ImportString(hexVal); err == nil {
-						nS, _ := n.ExportBinaryNBits(int(wordSize))
+						nS, err := n.ExportBinaryNBits(int(wordSize))
+						if err != nil {
+							return errors.New("ROM data value " + hexVal + " of " + cp.GetValue() + " does not fit the " + strconv.Itoa(wordSize) + " bits of a ROM word")
+						}
 						data = append(data, nS)
 					} else {
 						return err
